@@ -8,7 +8,7 @@ from hypothesis import strategies as st
 from .. import masks as mk
 from .. import netgen as ng
 from .. import pitutil as pu
-from ..core import Check, Part, Result, must
+from ..core import Check, Part, Result, must, safe_grad
 
 REL = 1e-5
 
@@ -256,8 +256,8 @@ def oracle_real(case) -> Result:
     # the gradient reaching the architecture parameters is strength x d(cost)
     params = [p for p in pit.nas_parameters() if p.requires_grad]
     if params and c > t32 and pit.get_cost(name).requires_grad:
-        g1 = torch.autograd.grad(reg(pit, epoch, ne), params, allow_unused=True)
-        g2 = torch.autograd.grad(pit.get_cost(name), params, allow_unused=True)
+        g1 = safe_grad(res, 'regularizer-gradient', reg(pit, epoch, ne), params, retain_graph=False)
+        g2 = safe_grad(res, 'cost-gradient', pit.get_cost(name), params, retain_graph=False)
         for a, b in zip(g1, g2):
             if (a is None) != (b is None):
                 res.bad('regularizer-gradient-support-differs-from-cost-gradient')
